@@ -19,7 +19,7 @@ SPEC = {
     "trusted_base": [
         "hand-written model Model/Sync.v of daemon.GiveBlocksMessage.process / visor.ExecuteSignedBlock as seen by the sync layer, compared on every run with the real follower visor driven by the real process methods (heads, replies, blocks held)",
         "add-only hook /repo/src/daemon/verif_c33.go (tag verif): recording daemoner around a real visor",
-        "block kinds (genuine / bad signature / swapped body / re-signed PrevHash variant / genuine header+signature with a different body valid against the unspent set) as produced by the harness; whether the tree accepts the PrevHash variant (F1, owned by C04) is probed on every run and passed to the model as f1",
+        "block kinds (genuine / bad signature / swapped body / re-signed PrevHash variant / genuine header+signature with a different body valid against the unspent set / genuine block signed by another key), each also delivered after the genuine block was seen and rejected out of order as produced by the harness; whether the tree accepts the PrevHash variant (F1, owned by C04) is probed on every run and passed to the model as f1",
         "harness printer of schedules / traces as Coq terms; publisher chain built by the real publisher visor (CreateBlockFromTxns + signature)",
     ],
     "assumptions": ["a block is the publisher's block k iff its header hash and body hash equal those of the publisher's block k (SHA-256 collision freedom)",
